@@ -20,9 +20,10 @@ pub trait Tok: Clone + PartialEq + Debug + 'static + Send + Sync + chumsky::text
 /// text parsers (whitespace, newlines, digits, underscore): see gram::G::Text / G::Padded.
 /// 16..24 are the ASCII neighbours of the character classes ('@' 'A', '`' 'a', '/' '0', '9' ':',
 /// 'Z' '[', 'z' '{', 'F' 'G'): where hand-written classification code goes wrong.
-pub const BYTES: [u8; 24] = [b'a', b'b', b'c', b'd', b'e', b'f', b'g', b'h', b' ', b'\n', b'\r', b'0', b'7', b'_', b'\t', b'Z', b'@', b'`', b'/', b':', b'[', b'{', b'G', b'9'];
+/// 24, 25: the two remaining ASCII whitespace / line-break characters, vertical tab and form feed.
+pub const BYTES: [u8; 26] = [b'a', b'b', b'c', b'd', b'e', b'f', b'g', b'h', b' ', b'\n', b'\r', b'0', b'7', b'_', b'\t', b'Z', b'@', b'`', b'/', b':', b'[', b'{', b'G', b'9', 0x0B, 0x0C];
 /// Alphabet size of cases with text parsers / padded().
-pub const NSYM_TEXT: u8 = 24;
+pub const NSYM_TEXT: u8 = 26;
 
 impl Tok for u8 {
     fn from_sym(s: u8) -> u8 {
@@ -39,11 +40,11 @@ impl Tok for u8 {
 
 /// 1-, 2-, 3- and 4-byte characters so that &str byte offsets differ from token indices; 8..16 as
 /// for bytes, with a 3-byte (U+2028) and a 2-byte (U+0085) line terminator.
-pub const CHARS: [char; 24] = ['a', 'é', 'b', '日', 'c', '😀', 'd', 'ß', ' ', '\n', '\r', '0', '7', '_', '\u{2028}', '\u{85}', '@', '`', '/', ':', '[', '{', 'G', '\u{FF19}'];
+pub const CHARS: [char; 26] = ['a', 'é', 'b', '日', 'c', '😀', 'd', 'ß', ' ', '\n', '\r', '0', '7', '_', '\u{2028}', '\u{85}', '@', '`', '/', ':', '[', '{', 'G', '\u{FF19}', '\x0B', '\x0C'];
 
 /// Display form of a symbol in logs, S-expressions and replay files.
 pub fn sym_char(s: u8) -> char {
-    const SHOW: [char; 24] = ['a', 'b', 'c', 'd', 'e', 'f', 'g', 'h', '␣', '␤', '␍', '0', '7', '_', '⇥', 'Z', '@', '`', '/', ':', '[', '{', 'G', '9'];
+    const SHOW: [char; 26] = ['a', 'b', 'c', 'd', 'e', 'f', 'g', 'h', '␣', '␤', '␍', '0', '7', '_', '⇥', 'Z', '@', '`', '/', ':', '[', '{', 'G', '9', '␋', '␌'];
     SHOW.get(s as usize).copied().unwrap_or('?')
 }
 
